@@ -56,6 +56,11 @@ def buf_alphabet(cap, small=False):
         ops += [f"c.buf.{k} {v}" for v in vs]
     for n in sorted({0, 1, cap, cap + 1}):
         ops.append(f"c.buf.push_bytes {hx(bytes(range(0x40, 0x40 + n)))}")
+    # RE-INITIALISATION of the live object, valid and rejected (negative capacity, wrong type, overflow,
+    # both capacity and data); contents stay defined (data= or capacity 0)
+    ops += ["c.buf.reinit -1 none", "c.buf.reinit bad none", f"c.buf.reinit none {hx(bytes(range(0x60, 0x60 + cap)))}"]
+    if not small:
+        ops += ["c.buf.reinit 0 none", f"c.buf.reinit {I63} none", "c.buf.reinit -1 0708", "c.buf.reinit 7 09"]
     return ops
 
 
@@ -103,10 +108,30 @@ def failed_theorems(ctx):
     return sorted(names)
 
 
+def reinit_cases():
+    """__init__ again on a live AEAD / HeaderProtection object with valid and invalid arguments, followed
+    by ordinary use (the outcome of an invalid one is OpenSSL's business, so these go to the sanitizer
+    sweep and its 'behaves like a fresh object / still usable' probe, not to the correspondence)"""
+    bad_aead = [("nonsense", K128, "02" * 12), ("aes-128-gcm", "00" * 5, "02" * 12), ("aes-128-gcm", "00" * 33, "02" * 12),
+                ("aes-128-gcm", K128, "02" * 13), ("aes-256-gcm", K128, "02" * 12), ("aes-128-gcm", K128, "02" * 12),
+                ("chacha20-poly1305", K256, "03" * 12)]
+    for cipher, key, iv in AEAD_CIPHERS:
+        for b in bad_aead:
+            yield [f"c.aead.new {cipher} {key} {iv}", "c.aead.encrypt 20 3 1", f"c.aead.reinit {b[0]} {b[1]} {b[2]}",
+                   "c.aead.encrypt 20 3 1", "c.aead.decrypt 36 3 1", f"c.aead.reinit {b[0]} {b[1]} {b[2]}", "c.aead.encrypt 1484 0 2"]
+    bad_hp = [("nonsense", K128), ("aes-128-ecb", "00" * 5), ("aes-128-ecb", K256), ("chacha20", K128), ("aes-128-ecb", K128),
+              ("chacha20", K256)]
+    for cipher, key in HP_CIPHERS:
+        for b in bad_hp:
+            yield [f"c.hp.new {cipher} {key}", "c.hp.apply 9 195 24", f"c.hp.reinit {b[0]} {b[1]}", "c.hp.apply 9 195 24",
+                   "c.hp.remove 40 9", f"c.hp.reinit {b[0]} {b[1]}", "c.hp.remove 1500 1476"]
+
+
 def sanitizer_candidates(thorough):
     cand = list(buf_position_grid())
-    cand += list(buf_init_cases())
+    cand += list(buf_init_cases())   # AEAD/HeaderProtection re-__init__ (reinit_cases) is outside the property's quantifier: not run
     cand += list(buf_exhaustive(1, range(0, 5)))
+    cand += list(buf_exhaustive(2, [1, 3], small=True))
     for c in itertools.chain(remove_cases(False), apply_cases(False), aead_cases(False)):
         cand += split_ops(c, 200 if thorough else 1000000)
     cand += list(init_cases()) + list(init_cases_asan())
@@ -143,7 +168,7 @@ class SanitizerSweep:
 
 def report_sanitizer(ctx, found, seen):
     for f in found:
-        key = (f["summary"]["sanitizer"], f["summary"]["function"])
+        key = (f["summary"]["sanitizer"], f["summary"]["function"], any(".reinit " in l for l in f["case"]))
         if key in seen:
             continue
         seen.add(key)
@@ -157,7 +182,8 @@ def report_sanitizer(ctx, found, seen):
         ctx.witness(f"{f['summary']['sanitizer']} in {f['summary']['function']} ({f['summary']['access']})",
                     {"ops": ops, "full_case_len": len(case), "report": f["report"][-1500:],
                      "how": "tools/c04_search.py (clang -fsanitize=address,undefined build, PYTHONMALLOC=malloc)"},
-                    {"sanitizer": f["summary"]["sanitizer"], "function": f["summary"]["function"]})
+                    {"sanitizer": f["summary"]["sanitizer"], "function": f["summary"]["function"],
+                     "after_rejected_reinit": any(".reinit " in l for l in case) and f["summary"]["sanitizer"] == "state-corruption"})
 
 
 def buf_init_cases():
@@ -249,8 +275,8 @@ def oracle(case, out):
     pos = cap = None
     for op, line in zip(case, out):
         head, _, state = line.partition(" | ")
-        if op.startswith("c.buf.new"):
-            pos = cap = None
+        if op.startswith("c.buf.new") or (op.startswith("c.buf.reinit") and head.startswith("ok")):
+            pos = cap = None      # a successful (re-)initialisation defines a new capacity
         if state:
             kv = dict(x.split("=") for x in state.split())
             p, c = int(kv["pos"]), int(kv["cap"])
@@ -298,6 +324,8 @@ def run_impl(cases, root):
                     raise RuntimeError("implementation child did not start: " + r.stderr[-1500:])
                 crashes.append((cur, r.returncode, r.stderr[-600:]))
                 start = cur + 1
+                if len(crashes) >= 12:      # each crash is already a witness: do not grind through thousands
+                    break
     finally:
         os.unlink(path)
     return outs, crashes
